@@ -48,6 +48,9 @@ CHECKS = {
  "C10": (EX, "exhaustive enumeration of the parameter-selection space of fit_variogram (every vector in {fitted, deselected, fixed}^k x sill mode) plus option products, on noise-free data from the reference closed forms, with constraint invariants and identifiability-gated recovery",
          "For 9 model classes (quick) every selection vector over var / len_scale / nugget / optional arguments, three sill modes, dims 1-3 and lat-lon is fitted from a near-truth start; checked: deselected and fixed parameters untouched (incl. TPL variance), fitted values in bounds, prescribed sill met to 1e-12, returned dictionary == model state, second call a fixed point, r2 -> 1 and (where the Jacobian at the truth is well conditioned) recovery of the generating parameters; option product weights x init_guess x method x loss x custom bounds; directional data with anisotropy fitted / deselected / fixed; error paths leave the model unchanged.",
          "noise-free data, near-truth start; recovery only demanded for cond(J) < 1e6; requests without a free parameter skipped (counted)", "5/C10"),
+ "C19": (EX, "exhaustive enumeration of (transformation x input moments x target parameters x process / keep_mean x source / store names) on a complete probability grid; the distributional claim decided by the deterministic quantile identity T(mu + sigma z_p) = F_target^-1(p)",
+         "Every array transformation and every Field.transform wrapper is evaluated on the normal quantiles of all p in {1e-6, k/1000, 1-1e-6} for three (mu, sigma^2) plus a seed-selected one and compared with the closed-form target quantiles (log-normal, uniform, arcsine, U-quadratic incl. default bounds preserving mean and variance, Zinn-Harvey on |z| quantiles, force-moments on several arrays, Box-Cox round trip); discrete / binary transforms are fed every threshold, its floating-point neighbours and +-1e-9; wrappers are compared with array function o pre/post-processing for every flag and name combination.",
+         "probability grid of 1001 points; exact threshold hits for 'equal' thresholds are in the guard band (computed by the library)", "5/C19"),
 }
 PENDING = {}
 def main():
